@@ -1,6 +1,7 @@
 //! mc — bounded exhaustive model checking of quil-rs against the properties in
 //! /verif/properties.jsonl.  See /verif/DESIGN.md.
 mod engine;
+mod ex;
 mod props;
 mod refm;
 #[allow(dead_code)]
